@@ -1,5 +1,5 @@
 """C14: any byte string is either compiled or rejected with an error through the API."""
-import os, sys, json, random, subprocess
+import binascii, os, sys, json, random, subprocess
 import common, tlc, zw
 
 PID = "C14"
@@ -82,6 +82,117 @@ def damaged_inputs(vd, drv, wd):
             nfail += 1
     if nfail == 0:
         raise common.ToolError("C14: none of the damaged files made a query fail")
+
+
+PAYLOAD = {"0": 0, "7": 7, "-1": -1, "imin": -2**63, "imax": 2**63 - 1, "umax": 2**64 - 1}
+STRBYTES = {"": b"", "ab": b"ab", "a-NUL-b": b"a\x00b"}
+
+
+def _render(n, dom):
+    if dom == "dec": return str(n)
+    if dom == "hex": return "0" if n == 0 else ("-0x%x" % -n if n < 0 else "0x%x" % n)
+    if dom == "bool" and n in (0, 1): return ("false", "true")[n]
+    return None                      # not decided here (C20 decides renderings)
+
+
+def api_objects(vd, drvdir, wd, tier, memory=False):
+    """tla/ApiObj.tla: values, stacks and their owners through the public C API.  TLC explores every call sequence
+    within small bounds (OwnershipOK, Stable; two mutants as self-test) and draws random longer call sequences with
+    the expected state after every call; harness/apidrv.cc (libzwerg.h only) replays them on the sanitizer build:
+    the contract of every fallible call, the contents as the accessors show them, and -- MEMORY -- no leak, double
+    free or use after free once everything that the model says is alive has been destroyed.  Shared by C14 and C13."""
+    base = {"MaxVals": 4, "MaxStks": 2, "MaxOps": 5 if tier == "quick" else 6, "CloneRenumbers": False}
+    ov = {"Payloads": "MCPayloads", "Doms": "MCDoms", "Strs": "MCStrs", "Queries": "MCQueries"}
+    for mut in ("none", "take-keeps", "push-shares"):
+        r = tlc.run_tlc("ApiObj", constants=dict(base, Mut=mut), spec="Spec", invariants=["OwnershipOK"], props=["Stable"], overrides=ov,
+                        workers=6, timeout=1500, heap="8g")
+        if mut == "none":
+            if r.violated:
+                vd.observe("model:apiobj:" + r.violated, {"output": r.out[-3000:]})
+            elif not r.ok:
+                raise common.ToolError("TLC ApiObj failed\n" + r.out[-2000:])
+            vd.add_states(r)
+        elif r.violated != "OwnershipOK":
+            raise common.ToolError("ApiObj.tla: the mutant %s is not caught\n" % mut + r.out[-1500:])
+    out = os.path.join(wd, "apiobj.ndjson")
+    nb = 300 if tier == "quick" else 3000
+    r = tlc.run_tlc("ApiObjGen", constants={"MaxVals": 14, "MaxStks": 5, "MaxOps": 0, "CloneRenumbers": False, "Mut": "none", "OutFile": out,
+                                            "NBehaviours": nb, "Len0": 18}, spec="Spec", workers=1, timeout=1500, heap="6g")
+    if not r.ok or not os.path.exists(out):
+        raise common.ToolError("ApiObjGen failed\n" + r.out[-2000:])
+    behs = [json.loads(l) for l in open(out) if l.strip()]
+    def script(op):
+        a = list(op)
+        if a[0] == "str": a[1] = zw.hexq(STRBYTES[a[1]])
+        elif a[0] == "exec": a[1] = zw.hexq(a[1]) or ""
+        return ",".join(a)
+    cf = os.path.join(wd, "apiobj.txt")
+    with open(cf, "w") as f:
+        for b in behs:
+            f.write("%d\t%s\n" % (b["b"], ";".join(script(s["op"]) for s in b["steps"])))
+    env = dict(os.environ)
+    env["ASAN_OPTIONS"] = "detect_leaks=1:abort_on_error=0:exitcode=77"
+    env["UBSAN_OPTIONS"] = "print_stacktrace=1:halt_on_error=1:exitcode=78"
+    pr = subprocess.run([os.path.join(drvdir, "bin", "apidrv"), cf], stdout=subprocess.PIPE, stderr=subprocess.PIPE, env=env, timeout=1800)
+    lines = [json.loads(l) for l in pr.stdout.decode("utf-8", "replace").splitlines() if l.startswith("{")]
+    bystep = {(l["id"], l["step"]): l for l in lines}
+    if pr.returncode != 0:
+        errtxt = pr.stderr.decode("utf-8", "replace")
+        what = "leak" if "LeakSanitizer" in errtxt else "sanitizer report or crash"
+        if memory or what != "leak":
+            last = lines[-1] if lines else {}
+            vd.observe("api objects: %s (exit status %d) after behaviour %s step %s" % (what, pr.returncode, last.get("id"), last.get("step")),
+                       {"stderr": errtxt[-3000:], "file": cf})
+    def want_desc(rec):
+        n = PAYLOAD.get(rec["v"])
+        if rec["kind"] == "cst":
+            d = {"k": "cst", "sgn": rec["sgn"], "v": str(n), "pos": rec["pos"]}
+            t = _render(n, rec["dom"])
+            if t is not None: d["txt"] = binascii.hexlify(t.encode()).decode()
+            return d
+        if rec["kind"] == "str":
+            return {"k": "str", "hex": binascii.hexlify(STRBYTES[rec["v"]]).decode(), "pos": rec["pos"]}
+        t = _render(n, rec["dom"])                  # the result of zw_value_const_format
+        d = {"k": "str", "pos": 0}
+        if t is not None: d["hex"] = binascii.hexlify(t.encode()).decode()
+        return d
+    def same(want, got):
+        return got is not None and all(got.get(k) == v for k, v in want.items())
+    nsteps = 0
+    for b in behs:
+        for i, stp in enumerate(b["steps"]):
+            vd.cov["evaluations"] += 1
+            got = bystep.get((str(b["b"]), i + 1))
+            key = "api objects: behaviour %d step %d `%s'" % (b["b"], i + 1, ",".join(stp["op"]))
+            if got is None:
+                if pr.returncode == 0:
+                    vd.observe(key + ": no record", {})
+                break
+            if "contract" in got:
+                vd.observe(key + ": contract: " + got["contract"], {"observed": got}); break
+            st = stp["after"]
+            # a query on a stack that is too shallow for it fails at run time (reported, nothing handed out)
+            shallow = stp["op"][0] == "exec" and len(st["stks"]) == (len(b["steps"][i - 1]["after"]["stks"]) if i else 0)
+            if got["ok"] == shallow or (shallow and not got.get("err")):
+                vd.observe(key + ": %s" % ("failed" if not got["ok"] else "succeeded where the model says it fails"), {"observed": got}); break
+            bad = None
+            for vi, rec in enumerate(st["vals"]):
+                if rec["own"] == "c" and not same(want_desc(rec), got["vals"].get(str(vi + 1))):
+                    bad = ("value %d" % (vi + 1), want_desc(rec), got["vals"].get(str(vi + 1)))
+            if set(got["vals"]) != {str(vi + 1) for vi, rec in enumerate(st["vals"]) if rec["own"] == "c"}:
+                bad = ("the client's values", sorted(got["vals"]), None)
+            for k, sk in enumerate(st["stks"]):
+                gs = got["stks"].get(str(k + 1))
+                if not sk["live"]:
+                    if gs is not None: bad = ("stack %d is alive" % (k + 1), None, gs)
+                    continue
+                if gs is None or len(gs) != len(sk["items"]) or not all(same(want_desc(st["vals"][v - 1]), g) for v, g in zip(sk["items"], gs)):
+                    bad = ("stack %d" % (k + 1), [want_desc(st["vals"][v - 1]) for v in sk["items"]], gs)
+            if bad:
+                vd.drift.append("%s: %s: model %s, library %s" % (key, bad[0], json.dumps(bad[1])[:300], json.dumps(bad[2])[:300])); break
+            nsteps += 1
+    vd.cov["traces_validated_against_impl"] = vd.cov.get("traces_validated_against_impl", 0) + nsteps
+    return nsteps
 
 
 def run(tier):
@@ -260,6 +371,8 @@ def run(tier):
         if r.get("status") not in ("accepted", "rejected") or "contract" in r:
             vd.observe("deep nesting: `%s' x %d around `%s' closed by `%s' x %d: %s" % (o, n, m, c, n, r.get("status")), {"observed": r})
     vd.cov["traces_validated_against_impl"] = nontriv
+    # 7. the other fallible calls: values and stacks (tla/ApiObj.tla), on the sanitizer build
+    api_objects(vd, san, wd, tier)
     vd.sample({"tokens": vecs[len(vecs) // 2], "spelled": meta[len(vecs)][1].decode("utf-8", "replace")})
     vd.sample({"mutation": meta[-1][1].decode("utf-8", "backslashreplace")})
     return vd.finish(rule="(1) every token-class string up to length %d over the 28-class alphabet of tla/Grammar.tla (incl. "
@@ -269,7 +382,7 @@ def run(tier):
                      "compared as model binding; (2) all single bytes, sampled byte pairs; (3) integer literals: %d "
                      "prefix x body combinations; (4) truncations at every length and random mutations (incl. NUL, high "
                      "bytes) of %d seed programs, accepted ones executed under a budget; (5) run-time failures at pull "
-                     "index 0..3, CLI stderr + status 2, file-open failures; (6) every nesting construct and every growing chain at depths 64 .. 30000 (100000 in the thorough tier): compiled or rejected, no crash; non-trivial = strings whose accept/reject "
+                     "index 0..3, CLI stderr + status 2, file-open failures; (6) every nesting construct and every growing chain at depths 64 .. 30000 (100000 in the thorough tier): compiled or rejected, no crash; (7) tla/ApiObj.tla: values, stacks and their owners -- every call sequence within small bounds explored by TLC (OwnershipOK, Stable, two mutants), random sequences of 18 calls replayed through libzwerg.h alone (harness/apidrv.cc) with the contract of every fallible call and the contents after every call compared; non-trivial = strings whose accept/reject "
                      "matches the grammar model" % (3 if tier == "quick" else 4, len(INT_PREFIXES) * len(INT_BODIES), len(seeds)))
 
 def replay(path):
